@@ -20,40 +20,50 @@ def cond_key(p, drop=()):
     return frozenset((nf.vkey(c), pol) for c, pol, _ in p.conds if fmt(c) not in drop)
 
 
+def _new_private(repo, key):
+    from ..model import _known_spec
+    nm = key.rsplit('.', 1)[-1]
+    return repo.has_func(key) and nm.startswith('_') and not nm.startswith('__') and key not in set(_known_spec().get('functions', []))
+
+
+def _bare_where(repo, key, nm='mask', depth=0):
+    """Where in function `key` its parameter `nm` (the mask) is used other than through its boolean support; '' if nowhere.
+    Handing it on to a function of the module that coerces it itself is not a use; a helper written after the rules
+    is looked into for the parameter that receives it."""
+    ff, pp, _ = analyse(repo, key)
+    for p in pp:
+        vals = [p.ret] if p.status == 'return' else []
+        for e in p.events:
+            callee = str(e.data.get('callee', ''))
+            if e.kind == 'call' and not callee.startswith('ext:'):
+                for k_, v in (e.data.get('bound') or {}).items():
+                    if v == S(nm) and k_ == 'mask':
+                        continue
+                    if v == S(nm) and depth < 3 and _new_private(repo, callee) and not _bare_where(repo, callee, k_, depth + 1):
+                        continue
+                    vals.append(v)
+            elif e.kind == 'call' and callee not in ('ext:numpy.asarray', 'ext:numpy.array', 'ext:numpy.asanyarray',
+                                                     'ext:numpy.ascontiguousarray', 'ext:numpy.shape', 'ext:numpy.ndim',
+                                                     'ext:functools.partial'):      # partial(f, mask, ..): handed on to f
+                vals += [a_ for a_ in (e.data.get('args') or []) if a_ is not None]
+                vals += [a_ for a_ in (e.data.get('kwargs') or {}).values() if a_ is not None]
+        for c, _, _ in p.conds:
+            vals.append(c)
+        for v in vals:
+            if v is not None and _bare_use(v, nm, repo, depth):
+                return fmt(v)[:120]
+    return ''
+
+
 def bool_coercion_rule(chk, repo, clause='C11-b'):
     """the mask is only used through its boolean support in zernike / zernike_coordinates (C11-b; reused by C12)"""
     for key in ('zernike.zernike', 'zernike.zernike_coordinates', 'zernike.zernike_fit', 'zernike.zernike_remove',
                 'zernike.zernike_basis', 'zernike.zernike_compose'):
         if not repo.has_func(key) or 'mask' not in repo.func(key).param_names():
             continue
-        ff, pp, _ = analyse(repo, key)
-        bare = False
-        where = ''
-        for p in pp:
-            vals = [p.ret] if p.status == 'return' else []
-            for e in p.events:
-                if e.kind == 'call' and not str(e.data.get('callee', '')).startswith('ext:'):
-                    # handing the mask on to another function of the module (which coerces it itself) is not a use
-                    vals += [v for k_, v in (e.data.get('bound') or {}).items() if not (k_ == 'mask' and v == S('mask'))]
-                elif e.kind == 'call' and str(e.data.get('callee')) not in ('ext:numpy.asarray', 'ext:numpy.array', 'ext:numpy.asanyarray',
-                                                                            'ext:numpy.ascontiguousarray', 'ext:numpy.shape', 'ext:numpy.ndim',
-                                                                            'ext:functools.partial'):      # partial(f, mask, ..): handed on to f
-                    vals += [a_ for a_ in (e.data.get('args') or []) if a_ is not None]
-                    vals += [a_ for a_ in (e.data.get('kwargs') or {}).values() if a_ is not None]
-            for c, _, _ in p.conds:
-                vals.append(c)
-            for v in vals:
-                if v is None:
-                    continue
-                for a in nf.value_atoms(v):
-                    # the bare parameter may only occur as the operand of the bool cast
-                    pass
-                if _bare_use(v):
-                    bare = True
-                    where = fmt(v)[:120]
-        chk.ob(clause, 'D-dominance', key, 'mask only used through its boolean support', not bare,
-               f'un-coerced use of `mask`: {where}' if bare else 'np.asarray(mask, dtype=bool) precedes every use', ff.loc())
-
+        where = _bare_where(repo, key)
+        chk.ob(clause, 'D-dominance', key, 'mask only used through its boolean support', not where,
+               f'un-coerced use of `mask`: {where}' if where else 'np.asarray(mask, dtype=bool) precedes every use', repo.func(key).loc())
 
 
 def run(chk, repo, tier):
@@ -379,7 +389,7 @@ def run(chk, repo, tier):
                                                                        if wrapped else ''), fr.loc())
 
 
-def _bare_use(v):
+def _bare_use(v, nm='mask', repo=None, depth=0):
     """`mask` occurs in v other than as the operand of the boolean cast."""
     def walk(x, under_cast=False):
         if isinstance(x, Poly):
@@ -389,16 +399,22 @@ def _bare_use(v):
         if isinstance(x, nf.Slice):
             return walk(x.lo) or walk(x.hi) or walk(x.step)
         if isinstance(x, tuple):
-            if x == ('sym', 'mask'):
+            if x == ('sym', nm):
                 return True
-            if len(x) == 3 and x[0] == 'app' and x[1] == 'cast' and x[2] and x[2][0] == S('mask'):
+            if len(x) == 3 and x[0] == 'app' and x[1] == 'cast' and x[2] and x[2][0] == S(nm):
                 return False
-            if len(x) == 3 and x[0] == 'attr' and x[1] == ('sym', 'mask') and x[2] in ('shape', 'ndim', 'size'):
+            if len(x) == 3 and x[0] == 'attr' and x[1] == ('sym', nm) and x[2] in ('shape', 'ndim', 'size'):
                 return False            # the geometry of the array does not depend on its values
             if len(x) == 3 and x[0] == 'app' and isinstance(x[1], str) and x[1].startswith('call:'):
                 # the result of another function of the module that was handed the mask (and coerces it itself)
-                rest = [a_ for a_ in x[2] if not (isinstance(a_, Tup) and len(a_) == 2 and a_.items[0] == Const('mask')
-                                                  and a_.items[1] == S('mask'))]
+                def handed_on(a_):
+                    if not (isinstance(a_, Tup) and len(a_) == 2 and isinstance(a_.items[0], Const) and a_.items[1] == S(nm)):
+                        return False
+                    if a_.items[0] == Const('mask'):
+                        return True
+                    ck = x[1][5:]
+                    return repo is not None and depth < 3 and _new_private(repo, ck) and not _bare_where(repo, ck, a_.items[0].value, depth + 1)
+                rest = [a_ for a_ in x[2] if not handed_on(a_)]
                 return any(walk(i) for i in rest)
             return any(walk(i) for i in x)
         return False
